@@ -106,6 +106,9 @@ def emu_tokens(emu, w, h):
         t += [('avt-clr', b'\x0c'), ('avt-rep', b'\x19A\x05'), ('avt-rep-big', b'\x19B\xff'), ('avt-color', b'\x16\x01\x8f'), ('avt-blink', b'\x16\x02'),
               ('avt-up', b'\x16\x03'), ('avt-down', b'\x16\x04'), ('avt-left', b'\x16\x05'), ('avt-right', b'\x16\x06'), ('avt-cleol', b'\x16\x07'),
               ('avt-goto', b'\x16\x08' + bytes([min(255, w + 1), min(255, h + 1)])), ('avt-goto-max', b'\x16\x08\xf0\xf0'), ('avt-goto0', b'\x16\x08\0\0'),
+              # position bytes inside the screen: the only ones that tell a 0-based goto from the 1-based one of the merged tree
+              ('avt-goto-mid', b'\x16\x08' + bytes([max(1, w // 2), max(1, h // 2)])), ('avt-goto-11', b'\x16\x08\x01\x01'), ('avt-goto-32', b'\x16\x08\x03\x02'),
+              ('avt-goto-wh', b'\x16\x08' + bytes([min(255, w), min(255, h)])), ('avt-goto-x0', b'\x16\x08\x00\x02'), ('avt-goto-y0', b'\x16\x08\x02\x00'),
               ('avt-badcmd', b'\x16\x63'), ('avt-rep-esc', b'\x19\x1b\x03')]
     elif emu == 2:
         t += [('pcb-color', b'@X1F'), ('pcb-code', b'@CLS@'), ('pcb-at', b'@'), ('pcb-x', b'@Xzz')]
